@@ -7,6 +7,7 @@ import (
 
 var commands = map[string]func([]string){
 	"c05": runC05,
+	"c15": runC15,
 }
 
 func main() {
